@@ -246,6 +246,33 @@ fn run_inner(ctx: &Ctx) {
         u32::from_le_bytes(*b"SIG\0"), u32::from_le_bytes(*b"NONC"), u32::from_le_bytes(*b"CERT"),
         0x58585858,
     ];
+    // near-miss spellings of every known tag (one byte changed, case changed, early-draft spellings):
+    // none of them is a tag, as the only / first / last tag of small messages
+    {
+        let mut near: Vec<[u8; 4]> = vec![*b"PAD\0", *b"SIG\xff", *b"VER\xff", *b"SRV\xff", *b"sig\0", *b"nonc", *b"PAD ", *b"SIG ", *b"NONc", *b"ZZZZ"];
+        for t in TAGS.iter() {
+            let w: [u8; 4] = t.wire_value().try_into().unwrap();
+            for pos in 0..4 {
+                for delta in [1u8, 0x20, 0x80, 0xff] {
+                    let mut x = w;
+                    x[pos] = x[pos].wrapping_add(delta);
+                    near.push(x);
+                }
+            }
+        }
+        for (k, w) in near.iter().enumerate() {
+            if (k as u64) % nshards != shard { continue; }
+            // single-tag message, two-tag messages with the word first / last
+            let mut b = vec![]; w32(&mut b, 1); b.extend_from_slice(w); b.extend_from_slice(&[1, 2, 3, 4]);
+            emit_dec(&mut out, &b, true);
+            let mut b = vec![]; w32(&mut b, 2); w32(&mut b, 4); b.extend_from_slice(b"SIG\0"); b.extend_from_slice(w); b.extend_from_slice(&[1, 2, 3, 4, 5, 6, 7, 8]);
+            emit_dec(&mut out, &b, true);
+            let mut b = vec![]; w32(&mut b, 2); w32(&mut b, 4); b.extend_from_slice(w); b.extend_from_slice(b"PAD\xff"); b.extend_from_slice(&[1, 2, 3, 4, 5, 6, 7, 8]);
+            emit_dec(&mut out, &b, true);
+            let mut b = vec![]; w32(&mut b, 3); w32(&mut b, 4); w32(&mut b, 8); b.extend_from_slice(b"NONC"); b.extend_from_slice(w); b.extend_from_slice(b"PAD\xff"); b.extend_from_slice(&[0; 12]);
+            emit_dec(&mut out, &b, true);
+        }
+    }
     let max_len = if ctx.thorough { 6 } else { 5 };
     let mut counter: u64 = 0;
     for len in 0..=max_len {
